@@ -112,6 +112,14 @@ def gen_space(rng, allow_prod=True, small=False):
         ha, hb = rng.choice([0.5, 1.0, 2.0]), rng.choice([0.5, 1.0, 0.25])
         return Sp(k, odl.uniform_discr([0, 0], [a * ha, b * hb], [a, b]), [ha * hb] * (a * b),
                   ctor='odl.uniform_discr([0, 0], [%r, %r], [%d, %d])' % (a * ha, b * hb, a, b))
+    if rng.random() < 0.4:
+        # power space X^d: GroupL1Norm and its ball live here
+        d = rng.choice([1, 2, 2, 3])
+        base = gen_space(rng, allow_prod=False, small=True)
+        sp = odl.ProductSpace(base.odl, d)
+        out = Sp('power', sp, base.w * d, parts=[base] * d, ctor='odl.ProductSpace(%s, %d)' % (base.ctor, d))
+        out.d, out.m = d, base.n
+        return out
     m = rng.choice([2, 2, 3])
     parts = [gen_space(rng, allow_prod=False, small=True) for _ in range(m)]
     sp = odl.ProductSpace(*[p.odl for p in parts])
@@ -154,10 +162,17 @@ def gen_leaf(rng, sp, S='S'):
     F = odl.solvers
     if sp.parts:
         choices = ['sep', 'sep', 'sep', 'l2sq', 'const', 'indzero', 'l2', 'ball2', 'quad', 'l1', 'ballinf']
+        if sp.kind == 'power':
+            choices += ['group', 'group', 'groupball', 'groupball']
     else:
         choices = ['l1', 'l2', 'linf', 'ball1', 'ball2', 'ballinf', 'l2sq', 'const', 'zero', 'indzero',
                    'huber', 'huber', 'quad', 'quad']
     k = rng.choice(choices)
+    if k in ('group', 'groupball'):
+        b = (k == 'group')
+        obj = F.GroupL1Norm(sp.odl, 2) if b else F.IndicatorGroupL1UnitBall(sp.odl, 2)
+        return Node(obj, '(cGroup %d %d %s)' % (sp.d, sp.m, C.b(b)),
+                    'F.%s(%s, 2)' % ('GroupL1Norm' if b else 'IndicatorGroupL1UnitBall', S), True)
     if k == 'sep':
         subs = []
         for i, p in enumerate(sp.parts):
@@ -349,6 +364,10 @@ def pyshape(f):
     D = odl.solvers.functional.default_functionals
     if isinstance(f, FF.BregmanDistance):
         return pyshape(f._BregmanDistance__bregman_dist)
+    if isinstance(f, D.GroupL1Norm):
+        return [17]
+    if isinstance(f, D.IndicatorGroupL1UnitBall):
+        return [18]
     if isinstance(f, D.LpNorm):
         return [0]
     if isinstance(f, D.IndicatorLpUnitBall):
@@ -418,6 +437,8 @@ def make_case(sp, node, x, y, sigma):
         gcell['g'] = f.gradient(X)
         return gcell['g']
     grad = obs_vec(sp, _g)
+    if 'cGroup' in node.coq:
+        grad = 'IVSkip'           # the gradient of the group pair is not modelled
     if 'g' in gcell and fc is not None and grad.startswith('(IVec'):
         cgval = obs_val(lambda: fc(gcell['g']))
     else:
